@@ -910,6 +910,102 @@ def issued_vs_checked(rep: Report) -> None:
                  f"service '{svc}' is checked but never issued (handler unusable)")
 
 
+def used_token_records(rep: Report, idx: Index, cg: CallGraph) -> None:
+    """R15.7  "a CSRF token is accepted at most once" rests on the rows of models.Token that CsrfProtection.check
+    writes for every token it has accepted (R15.4) - they are the only memory of what was used.  Such a row may
+    go once the token could not be accepted anyway (its `expires` has passed) or when the process starts (tokens
+    of an earlier run are bound to cookies of that run).  Every bulk delete on Token that is not restricted by
+    `expires <` is therefore found, with the parameter that switches it on, and every call that can switch it on
+    must lie outside the request paths: not in the request handler package, not reachable from a routed view."""
+    rid = 'R15.7'
+    rel = 'dashlive/server/models/token.py'
+    tree = rep.repo.tree(rel)
+    cls = need(find_class(tree, 'Token'), f'{rel}::Token')
+    wipers: dict[str, tuple[list[str], list[list[str]]]] = {}      # method -> (its parameters, switches of each unrestricted delete)
+    n_del = 0
+    for m in [x for x in cls.body if isinstance(x, (ast.FunctionDef, ast.AsyncFunctionDef))]:
+        params = [a.arg for a in m.args.args if a.arg not in ('self', 'cls')] + [a.arg for a in m.args.kwonlyargs]
+        for c in [x for x in ast.walk(m) if isinstance(x, ast.Call)]:
+            # delete(cls) / delete(Token) [.where(..)] and <query on cls>.delete()
+            is_stmt = isinstance(c.func, ast.Name) and c.func.id == 'delete' and c.args \
+                and norm(c.args[0]) in ('cls', 'Token', 'self.__class__')
+            is_q = isinstance(c.func, ast.Attribute) and c.func.attr == 'delete' and not c.args \
+                and re.search(r'query\((cls|Token)\)', norm(c.func.value))
+            if not (is_stmt or is_q):
+                continue
+            n_del += 1
+            # the whole statement expression this delete is part of (delete(cls).where(..))
+            top = c
+            while isinstance(getattr(top, '_parent', None), (ast.Attribute, ast.Call)):
+                top = top._parent
+            text = norm(top)
+            if re.search(r'\bexpires\s*<', text):
+                rep.ok(rid, f'{rel}::Token.{m.name}', f'{short(top, 50)}', 'only rows whose expiry has passed')
+                continue
+            switches = []
+            p_ = getattr(top, '_parent', None)
+            while p_ is not None and p_ is not m:
+                if isinstance(p_, ast.If):
+                    switches += [x.id for x in ast.walk(p_.test) if isinstance(x, ast.Name) and x.id in params]
+                p_ = getattr(p_, '_parent', None)
+            wipers.setdefault(m.name, (params, []))[1].append(switches)
+    if n_del == 0:
+        raise AnalysisError('models.Token: no bulk delete found (prune_database vanished?)')
+    # request paths: the handler package, and whatever the routed views reach
+    reach_q: set[str] = set()
+    for r in read_routes(idx):
+        if r.cls is None:
+            continue
+        for _verb, method in verb_methods(idx, r.cls).items():
+            reach_q |= set(cg.reachable([method], self_cls=r.cls, skip_how=('by-name',)))
+    n_calls = 0
+    for q, f in idx.functions.items():
+        for c in [x for x in ast.walk(f.node) if isinstance(x, ast.Call) and isinstance(x.func, ast.Attribute)
+                  and x.func.attr in wipers]:
+            if enclosing_function_of(c) is not f.node:
+                continue
+            recv = norm(c.func.value)
+            if not (recv.split('.')[-1] in ('Token', 'cls') or recv.endswith('models.Token')):
+                continue
+            params, per_delete = wipers[c.func.attr]
+            on = False
+            vals = []
+            for switches in per_delete:
+                this_on = True
+                for sw in switches:
+                    v = next((k.value for k in c.keywords if k.arg == sw), None)
+                    if v is None and sw in params and params.index(sw) < len(c.args):
+                        v = c.args[params.index(sw)]
+                    txt = f'{sw}={norm(v) if v is not None else "?"}'
+                    if txt not in vals:
+                        vals.append(txt)
+                    if isinstance(v, ast.Constant) and not v.value:
+                        this_on = False
+                on = on or this_on
+            n_calls += 1
+            construct = f'{f.rel}::{q.split(".")[-2] + "." if f.cls else ""}{f.node.name}'
+            key = f'Token.{c.func.attr}({", ".join(vals)})'
+            if not on:
+                rep.ok(rid, construct, key, 'the unrestricted delete is switched off')
+            elif f.rel.startswith('dashlive/server/requesthandler/') or q in reach_q:
+                rep.fail(rid, construct, key,
+                         f'`{short(c, 70)}` removes the records of used CSRF tokens that have not expired, on a request path '
+                         f'({"request handler package" if f.rel.startswith("dashlive/server/requesthandler/") else "reachable from a routed view"}): '
+                         'after this request a token that was already accepted passes CsrfProtection.check again with its '
+                         'original cookie - any client can trigger it', c)
+            else:
+                rep.ok(rid, construct, key, 'outside the request paths (start-up / command line)')
+    if n_calls == 0 and wipers:
+        rep.ok(rid, f'{rel}::Token', 'unrestricted deletes are never called')
+
+
+def enclosing_function_of(n: ast.AST):
+    p_ = getattr(n, '_parent', None)
+    while p_ is not None and not isinstance(p_, (ast.FunctionDef, ast.AsyncFunctionDef, ast.Lambda)):
+        p_ = getattr(p_, '_parent', None)
+    return p_
+
+
 def analyse(rep: Report) -> None:
     rep.explanation = (
         'Enumeration of every (route, HTTP verb) pair from routes.py with the handler resolved '
@@ -929,6 +1025,7 @@ def analyse(rep: Report) -> None:
                       'service and salt, mismatch raises', floor=12)
     rep.rule('R15.5', 'CSRF service names issued vs. checked', floor=0, informational=True)
     rep.rule('R15.6', 'the groups (roles) of an account are written only on behalf of an administrator', floor=2)
+    rep.rule('R15.7', 'records of used CSRF tokens are removed only once expired, or outside the request paths', floor=2)
     idx = Index(rep.repo)
     cg = CallGraph(idx)
     check_role_decorators(rep)
@@ -936,6 +1033,7 @@ def analyse(rep: Report) -> None:
     check_before_mutate(rep, idx, cg)
     check_csrf_protocol(rep)
     issued_vs_checked(rep)
+    used_token_records(rep, idx, cg)
     rep.assumptions = [
         'flask MethodView applies `decorators` to every verb; HEAD falls back to get',
         'flask_jwt_extended.jwt_required() admits any valid access token, including the guest '
